@@ -191,7 +191,7 @@ def main(run):
             seen.add(key)
             run.violation(key, m, rep)
         for m in ob["prop_bad"]:
-            key = f"C04:{case['recipe']['src'][1]}:document-property-{m.split(':')[0]}:changed"
+            key = f"C04:{case['recipe']['src'][1]}:{feat or 'clean'}:document-property-changed"
             seen.add(key)
             run.violation(key, f"{case['recipe']['src'][1]}: {m}", rep)
         run.case(f"{case['kind']}:{tag}:{case['path_idx'] % 9}:{','.join(sorted(set(ob.get('classes', []))))}:{','.join(sorted(seen))}", nontrivial=ob["n_results"] > 0,
